@@ -8,6 +8,7 @@ mod cos;
 mod hist;
 mod lists;
 mod longhist;
+mod regexcache;
 mod net;
 mod req;
 mod ser;
@@ -91,6 +92,8 @@ fn main() {
                 "c11" => lists::record_c11(&args[3], seed, n),
                 "c06" => longhist::record_c06(&args[3], seed, n, args.get(6).map(|s| s.as_str()).unwrap_or("blocker")),
                 "c01" => corpus::record_c01(&args[3], seed, n, args.get(6).and_then(|s| s.parse().ok()).unwrap_or(40)),
+                "regex" => regexcache::record_regex(&args[3], seed, n, args.get(6).map(|s| s.as_str()).unwrap_or(""),
+                                                    args.get(7).and_then(|s| s.parse().ok()).unwrap_or(2000)),
                 "c20" => cb::record_c20(&args[3], seed, n, args.get(6).map(|s| s.as_str()).unwrap_or("")),
                 other => {
                     eprintln!("harness: unknown driver {:?}", other);
